@@ -8,16 +8,16 @@ HERE = os.path.dirname(os.path.dirname(os.path.abspath(__file__)))
 
 CHECKS = {
     # id: (level, technique, level text, level note, design ref)
-    "C01": ("exploration", "offline history checker over stamped start/end events under bytecode-granular yield injection (sys.monitoring) + deterministic single-preemption enumeration (worker held at every instruction of the engine's bookkeeping) + registry runs checked on the run's effective dependencies",
+    "C01": ("exploration", "offline history checker over stamped start/end events under bytecode-granular yield injection (sys.monitoring) + deterministic single-preemption enumeration (worker held at every instruction of the engine's bookkeeping, up to its next queue.get) and two-preemption (k1, k2) pair enumeration (sampled in the quick tier, every pair of the 2-predecessor shapes in the thorough tier) + registry runs checked on the run's effective dependencies",
             "Held on the sampled executions: every call start was preceded by the successful end of all its IR ancestors, under seeded random plans, worker counts, both schedulers and preemption injected between engine bytecodes. Sampling, not exhaustion, is the right level for a schedule-quantified property of a GIL interpreter without a controllable scheduler.",
             "harness lock and sequence counter; IR generator's dependency relation; CPython sys.monitoring INSTRUCTION events", "3/C01"),
-    "C02": ("exploration", "differential against a reference interpreter + per-call argument identity/order monitors (several W/scheduler/retry/perturbation configurations, single-preemption enumeration, callables with explicit signatures)",
+    "C02": ("exploration", "differential against a reference interpreter + per-call argument identity/order monitors (several W/scheduler/retry/perturbation configurations, single- and two-preemption enumeration, callables with explicit signatures, plans whose direct evaluation raises)",
             "Held on the sampled expression graphs: run's value, every call's positional/keyword arguments (order, names, identity of node-free arguments, exact container types) agree with a direct recursive evaluation of the same IR under several (W, scheduler, perturbation) configurations.",
             "reference interpreter (vmon/ir.py Evaluator) mirrors the documented gather rule; deterministic call functions", "3/C02"),
     "C03": ("exploration", "from-scratch evaluator oracle after every step of generated store histories (in-memory logical-clock stores incl. DST-zone instants and skewed clocks, faulted and really interrupted runs; file-backed histories incl. symlinked sources)",
             "Held on the sampled histories (runs, faulted runs, source updates, deletions, fresh_time advances in any order): every successful run's output and every non-source store equal the from-scratch values.",
             "logical-clock in-memory stores; only documented registry patterns generated", "3/C03"),
-    "C04": ("exploration", "execution counters in the plan's own functions vs IR ancestor closure, under yield injection and deterministic single-preemption enumeration",
+    "C04": ("exploration", "execution counters in the plan's own functions vs IR ancestor closure, under yield injection, deterministic single-preemption enumeration and two-preemption pair enumeration",
             "Held on the sampled runs: no call exceeded its allowed attempts; successful runs executed exactly the ancestor closure of the output, once each.",
             "counters under the harness lock; needed set from the IR", "3/C04"),
     "C05": ("exploration", "declarative out-of-date oracle + need fixpoint predicting exact event multisets; silent re-run monitor; file-backed histories with execution counters (byte-identical rebuilds, symlinked sources)",
@@ -29,16 +29,16 @@ CHECKS = {
     "C07": ("exploration", "logical deadlock detector on kernel thread states (/proc futex parking + ctx-switch counters), bounded-progress livelock criterion for display threads, thread census, cycle placements; fault injection into every user callback (stores, observers, retry, transform_physical, Thread.start)",
             "Held on the sampled runs: no logically quiescent state with run un-returned was ever observed, nothing was left running or alive after return, and every cycle among examined nodes was reported before any call/store event.",
             "Linux /proc/self/task/<tid>/{syscall,status}; untimed futex wait = parked; progress=None in these runs", "3/C07"),
-    "C08": ("fault_enumeration", "event-indexed fault injection at EVERY boundary event of each generated case + post-cut oracle + repair-run oracles",
+    "C08": ("fault_enumeration", "event-indexed fault injection at EVERY boundary event of each generated case + post-cut oracle + repair-run oracles (also with retry absorbing an earlier transient fault, and with the cut placed in the repeated hour of a DST zone)",
             "For each generated case every cut index k (call start, read, write before/after effect, mtime query) x fault kind x configuration was executed; post-cut up-to-date values equal from-scratch values and the repair run rebuilt exactly the out-of-date ones. Exhaustive per case, cases sampled.",
             "in-memory stores atomic per operation; file-backed crash variant uses fork + os._exit", "3/C08"),
-    "C09": ("exploration", "offline ordering checker on stamped store/call history + identity of values returned by normalising stores",
+    "C09": ("exploration", "offline ordering checker on stamped store/call history (successful runs and failed runs that go on under max_errors) + identity of values returned by normalising stores",
             "Held on the sampled rebuilding runs: write < read-back < consumer start, plain dependents after the write, downstream stores rewritten later, consumers/outputs hold the store's read object.",
             "normalising stores make read values distinguishable from written ones", "3/C09"),
-    "C10": ("exploration", "in-flight counters + assertions at logically quiescent states driven by a wave scheduler; count/attempt monitors",
+    "C10": ("exploration", "in-flight counters + assertions at logically quiescent states driven by a wave scheduler; count/attempt monitors (incl. retry-exhausting store operations); error limit checked with the limit-crossing worker held at every instruction of its failure bookkeeping",
             "Held on the sampled runs: never more than max_workers operations (nor stale_check_max_workers mtime queries) in flight; at every quiescent state exactly min(W, ready) calls were running; max_errors and retry counts/identities as stated.",
             "quiescence from kernel thread state; readiness from the IR", "3/C10"),
-    "C11": ("fault_enumeration", "file-operation fault shim (every operation index x errno / os._exit in a forked child) + strace syscall fault injection; filesystem snapshot oracle",
+    "C11": ("fault_enumeration", "file-operation fault shim (every operation index x errno / persistent same-kind failure / non-Exception abort / os._exit in a forked child, with and without a leftover staging file, RLIMIT_FSIZE short writes) + strace syscall fault injection; filesystem snapshot oracle",
             "For each generated write every file-operation index was faulted (exception and process death): target holds complete old or complete new bytes, mtime unchanged unless new, no staging file after an exception, leftovers do not disturb later operations.",
             "open/os substitution in uberjob.stores._file_store inside the harness process; strace tier cross-checks on real syscalls", "3/C11"),
     "C12": ("exploration", "round-trip monitors over generated values per store domain and mount kind",
@@ -47,7 +47,7 @@ CHECKS = {
     "C13": ("exploration", "identity-level structural snapshots of Plan/Registry before vs after every operation kind; concurrent runs vs reference",
             "Held on the sampled operations (run with every outcome, dry_run, render, concurrent runs, copy mutations): the caller's Plan and Registry snapshots were identical before and after; concurrent runners returned the reference value.",
             "snapshots compare identities of nodes, edge keys, RegistryValues, stores and stack frames", "3/C13"),
-    "C15": ("exploration", "online trace-specification checker on a recording ProgressObserver + independent execution counters",
+    "C15": ("exploration", "online trace-specification checker on a recording ProgressObserver + independent execution counters (plain, registry, dry, failing-member, flaky-notification and really interrupted runs)",
             "Held on the sampled runs: enter/exit bracketing, totals before running, per-thread/per-scope balance, completed==total after success, run/stale totals equal to independently counted executions, composite members received identical per-thread sequences.",
             "recording observer stamps under its own lock; scope = user scope + fully qualified function name", "3/C15"),
     "C16": ("exploration", "weak-reference liveness monitor after gc.collect() at call starts and at logically quiescent states",
